@@ -20,9 +20,91 @@ def requests(fa, targets=TARGETS):
     return out
 
 
+# ---------------------------------------------------------------- extended catalogue (C09)
+# synthetic algorithm definitions: unnamed non-integer constants used more than once, named references inside ctx.call
+# scopes, three arguments assumed to share a dtype -- the shapes whose emitted names depend on process-global tables
+
+
+def syn_blend(ctx, x, y):
+    return (x + y) * 0.5 + ctx.sqrt(x * y) * 0.5
+
+
+def syn_poly(ctx, x):
+    return ((x * 1.5 + 0.75) * x + 1.5) * x + 0.75
+
+
+def _syn_helper(ctx, a, b):
+    t = a * b + a
+    return ctx(t * t)
+
+
+def syn_scoped(ctx, x, y):
+    u = ctx.call(_syn_helper, (x, y))
+    v = ctx.call(_syn_helper, (y, x))
+    w = ctx.call(_syn_helper, (x + y, x))
+    t = u + v
+    return ctx(t * w)
+
+
+def syn_muladd(ctx, x, y, z):
+    ctx._assume_same_dtype(x, y, z)
+    return x * y + z
+
+
+SYN = {"syn_blend": (syn_blend, 2), "syn_poly": (syn_poly, 1), "syn_scoped": (syn_scoped, 2), "syn_muladd": (syn_muladd, 3)}
+SYN_TYPES = {"python": ["float"], "numpy": ["float32", "float64"], "cpp": ["float32", "float64"], "stablehlo": ["float"], "xla_client": ["float"], "lax": ["float32", "float64", "ArrayLike"]}
+
+# the entries of tools/generate_apmath_lax.py (function, argument types, keyword arguments)
+APMATH_LAX = [
+    ("two_sum", ("x:ArrayLike", "y:ArrayLike"), dict(fix_overflow=False, override_name="two_sum_unsafe", assume_fma=False)),
+    ("two_sum", ("x:ArrayLike", "y:ArrayLike"), dict(fix_overflow=True, override_name="two_sum_general", assume_fma=False)),
+    ("two_prod", ("x:ArrayLike", "y:ArrayLike"), dict(scale=False, fix_overflow=False, override_name="two_prod_unsafe", assume_fma=False)),
+    ("two_prod", ("x:ArrayLike", "y:ArrayLike"), dict(scale=True, fix_overflow=True, override_name="two_prod_general", assume_fma=False)),
+    ("fma", ("x:ArrayLike", "y:ArrayLike", "z:ArrayLike"), dict(fix_overflow=False, override_name="fma_unsafe", assume_fma=False, algorithm="apmath", functional=True, scale=False, size=None, possibly_zero_z=False)),
+    ("fma", ("x:ArrayLike", "y:ArrayLike", "z:ArrayLike"), dict(fix_overflow=True, override_name="fma_general", assume_fma=False, algorithm="a7", functional=True, scale=True, size=None, possibly_zero_z=True)),
+]
+
+
+def extra_requests(fa):
+    """requests beyond the five trace_arguments tables: the lax table, the apmath->lax generator entries, synthetic definitions."""
+    out = [r for r in requests(fa, ["lax"])]
+    out += [("lax", "apmath:" + e[2]["override_name"], i) for i, e in enumerate(APMATH_LAX)]
+    for tname in TARGETS + ["lax"]:
+        for fname in SYN:
+            for i, t in enumerate(SYN_TYPES[tname]):
+                out.append((tname, "syn:" + fname, i))
+    return out
+
+
+def is_synthetic(req):
+    return req[1].startswith("syn:")
+
+
+def _build_extra(fa, req):
+    import numpy
+
+    tname, fname, i = req
+    target = getattr(fa.targets, tname)
+    if fname.startswith("apmath:"):
+        import functional_algorithms.apmath_algorithms  # noqa
+
+        name, args, kwargs = APMATH_LAX[i]
+        ctx = fa.Context(paths=[fa.apmath_algorithms], parameters=dict(dtypes=[numpy.float64, numpy.float32, numpy.float16]))
+        graph = ctx.trace(getattr(fa.apmath, name), *args, **kwargs)
+        return graph.rewrite(target, fa.rewrite, fa.rewrite), target  # exactly as tools/generate_apmath_lax.py
+    func, nargs = SYN[fname[4:]]
+    t = SYN_TYPES[tname][i]
+    enable_alt, dct = (True, "FloatType") if tname == "xla_client" else (False, None)
+    ctx = fa.Context(paths=[fa.algorithms], enable_alt=enable_alt, default_constant_type=dct)
+    graph = ctx.trace(func, *[f"{n}:{t}" for n in "xyz"[:nargs]]).implement_missing(target).simplify()
+    return graph, target
+
+
 def build_graph(fa, req):
     """the traced, expanded and simplified graph of a request (may raise NotImplementedError)."""
     tname, fname, i = req
+    if ":" in fname:
+        return _build_extra(fa, req)
     target = getattr(fa.targets, tname)
     atypes = target.trace_arguments[fname][i]
     enable_alt, dct = (True, "FloatType") if tname == "xla_client" else (False, None)
